@@ -243,7 +243,7 @@ fn stub_pike_try_at_pos<'a: 'a, Input: InputIndexer, Dir: Direction>(
 ) -> bool {
     if init_state.ip != 0 {
         unsafe {
-            vo::VERIF_ORACLE_CALLS_OK = false;
+            vo::mark_bad();
         }
     }
     match vo::lookup(&inp, init_state.pos) {
@@ -290,9 +290,9 @@ fn any_oracle<const N: usize, const B: usize>(hy: &HayN<N, B>, only_at_zero: boo
         i += 1;
     }
     unsafe {
-        vo::VERIF_ORACLE_HAYLEN = hy.len;
-        vo::VERIF_ORACLE_CALLS_OK = true;
-        vo::VERIF_ORACLE_ACTIVE = true;
+        vo::set_haylen(hy.len);
+        vo::reset_calls();
+        vo::set_active();
     }
 }
 
@@ -372,7 +372,7 @@ macro_rules! c09_body {
     }
     assert!(done, "iteration must be exhausted after at most chars+1 matches");
     assert!(count <= hy.n + 1);
-    assert!(unsafe { vo::VERIF_ORACLE_CALLS_OK }, "every attempt sees the whole haystack from instruction 0 with a clean stack");
+    assert!(vo::calls_ok(), "every attempt sees the whole haystack from instruction 0 with a clean stack");
     kani::cover!(anchored || count >= 2, "at least two matches (unanchored)");
     kani::cover!(anchored || (count == hy.n + 1 && hy.n >= 1), "an empty match at every position (unanchored)");
     kani::cover!(!anchored || count == 1, "the anchored match");
